@@ -704,8 +704,8 @@ class Executor:
         a = ival(0) if lo is None else self.norm_index(n, self.as_int(lo))
         b = n if hi is None else self.norm_index(n, self.as_int(hi))
         a, b = z3.simplify(a), z3.simplify(b)
-        r = z3.If(b <= a, z3.Empty(t.sort()), z3.SubSeq(t, a, b - a))
-        r = z3.simplify(r)
+        # with a, b normalised into [0, n]: seq.extract(t, a, b - a) is empty whenever b <= a (z3/SMT-LIB semantics)
+        r = z3.SubSeq(t, a, z3.simplify(b - a))
         if isinstance(base, VStr):
             return VStr(r)
         if isinstance(base, VSeq):
@@ -761,9 +761,12 @@ class Executor:
         i = z3.simplify(self.as_int(idx))
         self.oblige(st, f"safety[IndexError@{ln}]", z3.And(i >= -n, i < n), lineno=ln)
         j = z3.simplify(z3.If(i < 0, n + i, i))
+        elem = z3.simplify(t[j]) if z3.is_int_value(j) else t[j]
+        if z3.is_app(elem) and elem.decl().name() in ("seq.nth_i", "seq.nth_u", "if"):
+            elem = t[j]
         if isinstance(base, VStr):
-            return [(st, VStr(z3.Unit(t[j])))]
-        return [(st, from_term(t[j], el))]
+            return [(st, VStr(z3.Unit(elem)))]
+        return [(st, from_term(elem, el))]
 
     def ev_Call(self, st, e):
         return self.reg.eval_call(self, st, e)
@@ -919,7 +922,7 @@ class Executor:
             c = st.cell(obj)
             f = dict(c.fields)
             f[attr] = v
-            st.set_cell(obj, ObjCell(c.cls, f, c.owner))
+            st.set_cell(obj, ObjCell(c.cls, f, c.owner, c.view))
             return
         # write to an immutable record view = write into caller-owned state that the model treats as a value
         self.oblige(st, f"frame[store .{attr} on value object@{getattr(node, 'lineno', 0)}]", z3.BoolVal(False),
